@@ -196,8 +196,9 @@ fn deser_main<G: ParRig>(args: &Args) {
 fn faults_main<G: ParRig>(args: &Args) {
     let seed = args.u64("seed", 1);
     let skip: Vec<String> = args.str("skip", "").split(';').filter(|s| !s.is_empty()).map(|s| s.to_string()).collect();
+    let only: Vec<String> = args.str("only", "").split(';').filter(|s| !s.is_empty()).map(|s| s.to_string()).collect();
     // worker threads of the rayon pools are always tracked; keep the main thread consistent
-    let run = crate::alloc::tracked(|| crate::faults::run::<G>(seed, args.u64("worlds", 3) as usize, args.u64("max-k", 64), &skip, args.u64("op-limit", 0) as usize, args.u64("scene-ops", 14) as usize));
+    let run = crate::alloc::tracked(|| crate::faults::run::<G>(seed, args.u64("worlds", 3) as usize, args.u64("max-k", 64), &skip, &only, args.u64("op-limit", 0) as usize, args.u64("scene-ops", 14) as usize));
     let mut j = serde_json::to_value(&run.stats).unwrap();
     let o = j.as_object_mut().unwrap();
     o.insert("monitor".into(), "faults".into());
